@@ -1684,15 +1684,24 @@ class Frame {
   size_t offset;
   // The running maximum size of the frame.
   size_t size;
+  // The number of words at the low end of the frame that hold the actual
+  // parameters of a call being prepared. They are addressed from the stack
+  // pointer, so the frame must stay large enough for temporaries allocated
+  // meanwhile not to reach them.
+  size_t outgoing;
   // Exit label.
   std::string exitLabel;
 
 public:
-  Frame(std::string exitLabel) : offset(0), size(0), exitLabel(exitLabel) {}
+  Frame(std::string exitLabel) : offset(0), size(0), outgoing(0), exitLabel(exitLabel) {}
   int getSize() { return size; }
   void incOffset(int amount) {
     offset += amount;
-    size = std::max(size, offset); // +1 since it's an offset?
+    size = std::max(size, offset + outgoing); // +1 since it's an offset?
+  }
+  void setOutgoing(size_t amount) {
+    outgoing = amount;
+    size = std::max(size, offset + outgoing);
   }
   void decOffset(int amount) {
     offset -= amount;
@@ -2589,7 +2598,9 @@ public:
     auto stackOffset = currentFrame->getOffset();
     // Actual parameters.
     genCallActuals(args, currentScope);
+    currentFrame->setOutgoing(args.size() + FB_PARAM_OFFSET_FUNC);
     loadActuals(args, FB_PARAM_OFFSET_FUNC, currentScope, stackOffset);
+    currentFrame->setOutgoing(0);
     currentFrame->incOffset(args.size() + FB_PARAM_OFFSET_FUNC);
     // Perform syscall.
     genLDAC(syscallId);
@@ -2605,7 +2616,9 @@ public:
     auto stackOffset = currentFrame->getOffset();
     // Actual parameters.
     genCallActuals(args, currentScope);
+    currentFrame->setOutgoing(args.size() + FB_PARAM_OFFSET_FUNC);
     loadActuals(args, FB_PARAM_OFFSET_FUNC, currentScope, stackOffset);
+    currentFrame->setOutgoing(0);
     currentFrame->incOffset(args.size() + FB_PARAM_OFFSET_FUNC);
     // Branch and link.
     auto linkLabel = getLabel();
@@ -2623,7 +2636,9 @@ public:
     auto stackOffset = currentFrame->getOffset();
     // Actual parameters.
     genCallActuals(args, currentScope);
+    currentFrame->setOutgoing(args.size() + FB_PARAM_OFFSET_PROC);
     loadActuals(args, FB_PARAM_OFFSET_PROC, currentScope, stackOffset);
+    currentFrame->setOutgoing(0);
     currentFrame->incOffset(args.size() + FB_PARAM_OFFSET_PROC);
     // Branch and link.
     auto linkLabel = getLabel();
